@@ -656,3 +656,60 @@ def validate(desc, seq):
         if not z3.is_true(z3.simplify(e)):
             bad.append(label)
     return not bad, bad
+
+
+def unequal_completions(desc):
+    """Structural precondition of the recorded C05 finding: some crossing contains a within-trial derived factor and its
+    combinations admit different numbers of source completions (assignments of the crossed basic factors and of the
+    basic factors the crossed derived factors are computed from)."""
+    factors = {}
+    for fs in desc['factors']:
+        rf = RF(fs)
+        factors[rf.name] = rf
+        rf.finish(factors)
+
+    def sources(n, acc):
+        rf = factors[n]
+        if not rf.derived:
+            acc.add(n)
+        else:
+            for s in rf.window['factors']:
+                sources(s, acc)
+        return acc
+
+    def leaves(bs):
+        k = bs['kind']
+        if k in ('cross', 'multi'):
+            yield bs
+        elif k == 'repeat':
+            yield from leaves(bs['block'])
+        elif k == 'merge':
+            for b in bs['blocks']:
+                yield from leaves(b)
+        else:
+            yield from leaves(bs['outer'])
+            yield from leaves(bs['inner'])
+
+    for bs in leaves(desc['block']):
+        design = list(bs['design'])
+        crs = [list(bs['crossing'])] if bs['kind'] == 'cross' else [list(c) for c in bs['crossings']]
+        excludes = [(c[1], c[2]) for c in bs.get('constraints', []) if c[0] == 'Exclude']
+        try:
+            feas = _single_trial_feasible(design, factors, excludes)
+        except Exception:
+            continue
+        for cr in crs:
+            simple = [f for f in cr if not factors[f].complex]
+            if not any(factors[f].derived for f in simple):
+                continue
+            src = set()
+            for f in simple:
+                sources(f, src)
+            src = sorted(s for s in src if s in design)
+            counts = {}
+            for a in feas:
+                combo = tuple(a[f] for f in simple)
+                counts.setdefault(combo, set()).add(tuple(a[s] for s in src))
+            if len({len(v) for v in counts.values()}) > 1:
+                return True
+    return False
